@@ -1,4 +1,4 @@
-package main
+package hl
 
 import (
 	"context"
@@ -33,9 +33,9 @@ func (c *Ctx) ReplayCase() map[string]any {
 
 func (c *Ctx) Rand() *rand.Rand { return rand.New(rand.NewSource(c.Seed)) }
 
-func hx(b []byte) string { return hex.EncodeToString(b) }
+func Hx(b []byte) string { return hex.EncodeToString(b) }
 
-func unhx(s string) []byte {
+func Unhx(s string) []byte {
 	b, err := hex.DecodeString(s)
 	if err != nil {
 		panic(err)
@@ -44,7 +44,7 @@ func unhx(s string) []byte {
 }
 
 // rat renders a float64 as an exact rational "a/b" (or "nan", "+inf", "-inf").
-func rat(f float64) string {
+func Rat(f float64) string {
 	r := new(big.Rat)
 	if r.SetFloat64(f) == nil {
 		if f != f {
@@ -59,13 +59,13 @@ func rat(f float64) string {
 }
 
 // quietCtx carries a discarding logger so lib/log does not print a warning per call.
-func quietCtx() context.Context {
+func QuietCtx() context.Context {
 	l := slog.New(slog.NewTextHandler(io.Discard, nil))
 	return log.With(context.Background(), l)
 }
 
 // guard runs f and converts a panic into an outcome string.
-func guard(f func()) (outcome string) {
+func Guard(f func()) (outcome string) {
 	defer func() {
 		if r := recover(); r != nil {
 			outcome = fmt.Sprintf("panic: %v", r)
